@@ -5,6 +5,7 @@ import random
 
 from haiway import ctx
 
+from harness.decoys import decoyed
 from harness.legs import cfg_text, leg_m, leg_mutant, leg_r
 from harness.vloop import Falsy, VLoop, elder_loop
 
@@ -101,7 +102,7 @@ class TimeoutDriver:
             drv.fn_state = "cancelled"
             raise asyncio.CancelledError()
 
-        wrapped = timeout(float(self.T))(fn)
+        wrapped = timeout(float(self.T))(decoyed(fn))
         # the wrapper object is used once before the call under test (a call that ends normally at once): nothing of
         # that first call - a timer, a result, a callback - may be left to influence the second one
         self.warmup = "first"
